@@ -266,11 +266,13 @@ func ExactBBoxPath(sps []Subpath) (lo, hi Pt, ok bool) {
 func (s Seg) IsCurve() bool { return s.Kind == CmdQuad || s.Kind == CmdCube || s.Kind == CmdArc }
 
 // SegLength is the arc length by dense chord summation (n chords, Richardson-extrapolated with n/2).
-func SegLength(s Seg) float64 {
+func SegLength(s Seg) float64 { return SegLengthN(s, 8192) }
+
+// SegLengthN is SegLength with n chords (n even).
+func SegLengthN(s Seg, n int) float64 {
 	if !s.IsCurve() {
 		return s.P0.Dist(s.P1)
 	}
-	const n = 8192
 	pts := SegSample(s, n)
 	l1, l2 := 0.0, 0.0
 	for i := 0; i+1 < len(pts); i++ {
@@ -283,11 +285,14 @@ func SegLength(s Seg) float64 {
 }
 
 // PathLength sums SegLength over all segments.
-func PathLength(sps []Subpath) float64 {
+func PathLength(sps []Subpath) float64 { return PathLengthN(sps, 8192) }
+
+// PathLengthN sums SegLengthN over all segments.
+func PathLengthN(sps []Subpath, n int) float64 {
 	l := 0.0
 	for _, sp := range sps {
 		for _, s := range sp.Segs {
-			l += SegLength(s)
+			l += SegLengthN(s, n)
 		}
 	}
 	return l
